@@ -121,7 +121,8 @@ def prescribed_jitter(cfg):
     return V.F(DEFAULT_JITTER_DOUBLE)
 
 
-ENV_KEYS = ("learn_z", "jitter_mode", "jitter", "build_dtype", "jitter_ctx_build", "jitter_ctx_use", "noise_n", "noise_call")
+ENV_KEYS = ("learn_z", "jitter_mode", "jitter", "build_dtype", "jitter_ctx_build", "jitter_ctx_use", "noise_n", "noise_call",
+            "added_pos")
 
 
 def env_tag(cfg):
@@ -196,11 +197,39 @@ def build(cfg, rng, natural=False):
             kw = {"lengthscale_prior": gpytorch.priors.GammaPrior(3.0, 6.0)} if priors else {}
             okw = {"outputscale_prior": gpytorch.priors.NormalPrior(1.0, 2.0)} if priors else {}
             self.covar_module = gpytorch.kernels.ScaleKernel(base(batch_shape=kb, **kw), batch_shape=kb, **okw)
-            for k in range(cfg.get("added", 0)):
-                self.register_added_loss_term(f"extra_{k}")
+            # added-loss terms registered at the configured position of the module tree (default: the model itself)
+            owners = []
+            pos_list = cfg.get("added_pos") or ["model"] * cfg.get("added", 0)
+            for k, pos in enumerate(pos_list):
+                if pos == "model":
+                    owner = self
+                elif pos == "mean":
+                    owner = self.mean_module                      # below a gpytorch module (attribute)
+                elif pos == "base_kernel":
+                    owner = self.covar_module.base_kernel         # ScaleKernel -> base_kernel: gpytorch modules only
+                elif pos in ("additive", "product"):
+                    # a summand / factor of an AdditiveKernel / ProductKernel: reachable only through the torch
+                    # ModuleList `kernels`
+                    owner = gpytorch.kernels.MaternKernel(nu=1.5, batch_shape=kb)
+                    other = gpytorch.kernels.ScaleKernel(owner, batch_shape=kb)
+                    self.full_kernel = (self.covar_module + other) if pos == "additive" else (self.covar_module * other)
+                else:
+                    owner = gpytorch.means.ZeroMean()             # a gpytorch module held in a plain torch container
+                    if pos == "modulelist":
+                        self.extras_list = torch.nn.ModuleList([torch.nn.Identity(), owner])
+                    elif pos == "moduledict":
+                        self.extras_dict = torch.nn.ModuleDict({"holder": owner})
+                    elif pos == "sequential":
+                        self.extras_seq = torch.nn.Sequential(torch.nn.Identity(), owner)
+                    else:
+                        raise RuntimeError(pos)
+                owner.register_added_loss_term(f"extra_{k}")
+                owners.append(owner)
+            self.__dict__["_c15_owners"] = owners
 
         def forward(self, x):
-            return gpytorch.distributions.MultivariateNormal(self.mean_module(x), self.covar_module(x))
+            kern = self.full_kernel if "full_kernel" in self._modules else self.covar_module
+            return gpytorch.distributions.MultivariateNormal(self.mean_module(x), kern(x))
 
     model = finish_model(cfg, GP)
     lk = cfg.get("lik", "gaussian")
@@ -233,7 +262,7 @@ def build(cfg, rng, natural=False):
 
             def loss(self):
                 return torch.tensor(self.v, dtype=torch.float64)
-        model.update_added_loss_term(f"extra_{k}", Term(val))
+        model._c15_owners[k].update_added_loss_term(f"extra_{k}", Term(val))
         added_vals.append(val)
     y = torch.tensor([rng.uniform(-1.5, 1.5) for _ in range(n)], dtype=torch.float64)
     return model, lik, dist, x, y, added_vals
@@ -268,9 +297,14 @@ def prior_logprobs(mll, idx):
     return out
 
 
-def exact_qf(ctx, d14, model, dist, x, idx, desc, eps=None):
-    """Exact training-mode q(f) mean / variances and KL for batch element idx (through the C14 model), from the
-    parameters the model holds NOW; `eps` = the jitter the configuration prescribes (`prescribed_jitter`)."""
+def exact_qf(ctx, d14, model, dist, x, idx, desc, eps=None, prior_recomputed=False):
+    """Exact q(f) mean / variances and KL for batch element idx (through the C14 model), from the parameters the model
+    holds NOW; `eps` = the jitter the configuration prescribes (`prescribed_jitter`).
+    `prior_recomputed` (unwhitened strategy only): the KL is taken against p(u) as `prior_distribution` builds it —
+    `K_ZZ + add_jitter() default` — instead of the `K_ZZ + jitter_val I` that a TRAINING-mode forward caches.  That the
+    two differ is C14's recorded finding `UnwhitenedVariationalStrategy:*kl*` (its repair is not applied); it shows
+    whenever no training-mode forward precedes `kl_divergence()` on the same memo: in eval mode and after a
+    `train()/eval()` toggle.  Those cells are judged against the closed form with that p(u), and counted."""
     vs = model.variational_strategy
     M = vs.inducing_points.shape[-2]
     xx, Zx = V.expand_inputs(x, vs.inducing_points.detach())
@@ -286,14 +320,20 @@ def exact_qf(ctx, d14, model, dist, x, idx, desc, eps=None):
         var = [ex["cov"][i][i] for i in range(len(mx))]
         epsx = eps
     else:
-        ex = V.exact_unwhitened(ctx, d14, desc, kzz, kzx, kxx, mx, mz, eps, eps, m, S, R, hasS)
-        var = ex["trainvar"]
+        epsp = V.add_jitter_default() if prior_recomputed else eps
+        ex = V.exact_unwhitened(ctx, d14, desc, kzz, kzx, kxx, mx, mz, eps, epsp, m, S, R, hasS)
+        var = ex["trainvar"]          # (= diag of the eval-mode covariance in exact arithmetic: the clamp at 0 is inactive)
+        if prior_recomputed:
+            ctx.count("unwhitened_prior_recomputed(C14 known finding)")
         epsx = Fraction(0)
     return {"mean": [r[0] for r in ex["mean"]], "var": var, "kl": ex["kl"], "kappa": kappa, "blocks": (kzz, kzx, kxx, mx, mz),
             "eps": eps, "epsx": epsx, "m": m, "S": S}
 
 
 # ------------------------------------------------------------------ part A: objective values
+
+ADDED_POSITIONS = ["model", "mean", "base_kernel", "modulelist", "additive", "product", "moduledict", "sequential"]
+
 
 def objective_configs(ctx):
     rng = ctx.rng("objective-configs")
@@ -341,6 +381,15 @@ def objective_configs(ctx):
                             "lik": ["fixed", "fixed+extra"][(j // 2) % 2], "noise_kw": True, "noise_n": "equal",
                             "noise_call": call})
                 j += 1
+    # added-loss terms registered at EVERY position of the module tree (the expected sum is the registered values, never
+    # read from `added_loss_terms()`): on the model, below gpytorch modules, only below torch containers
+    for j, pos in enumerate(ADDED_POSITIONS if q else ADDED_POSITIONS * 3):
+        n = rng.randint(2, 5)
+        out.append({"strategy": ["VariationalStrategy", "UnwhitenedVariationalStrategy"][j % 2],
+                    "objective": ["elbo", "pll"][(j // 2) % 2], "beta": rng.choice([1.0, 0.3]), "priors": j % 4 == 3,
+                    "added": 2, "added_pos": [pos, ADDED_POSITIONS[(j + 3) % 4]], "dist": dists[j % len(dists)],
+                    "M": rng.randint(2, 4), "n": n, "d": rng.choice([1, 2]), "N": rng.choice([n, 3 * n, 17]),
+                    "pb": [[], [], [2]][j % 3], "kernel": "rbf", "combine": j % 3 != 1})
     return out
 
 
@@ -406,7 +455,7 @@ def run_objective(ctx, d14, d15, cfg, rng, replay_only=None):
 
 
 def judge_objective(ctx, d14, d15, cfg, cls_name, model, lik, dist, x, y, out, noise_b, added_vals, mll, replay_base,
-                    replay_only=None, extra_desc="", key_tag=""):
+                    replay_only=None, extra_desc="", key_tag="", prior_recomputed=False):
     """Compare what the objective returned (`out`: value, or the tuple of separately returned terms) with its definition
     evaluated exactly from the parameters the objects hold NOW (q(f), KL through the C14 model with the jitter the
     configuration prescribes; logs by mpmath; assembly by the generated `forward`), one case per batch element."""
@@ -438,7 +487,7 @@ def judge_objective(ctx, d14, d15, cfg, cls_name, model, lik, dist, x, y, out, n
         desc = f"{cfg['objective']} {cfg['strategy']}/{cfg['dist']} lik={lk} noise_kw={bool(cfg.get('noise_kw'))} beta={beta} " \
                f"N={N} B={n} priors={cfg['priors']} added={cfg['added']} combine_terms={combine} reassign={bool(cfg.get('reassign'))} " \
                f"pb={cfg['pb']} kb={cfg.get('kb', [])} M={cfg['M']} d={cfg['d']}{extra_desc} idx={list(idx)}"
-        ex = exact_qf(ctx, d14, model, dist, x, idx, desc, eps=eps)
+        ex = exact_qf(ctx, d14, model, dist, x, idx, desc, eps=eps, prior_recomputed=prior_recomputed)
         if ex["kappa"] > V.COND_MAX:
             ctx.count("discarded_ill_conditioned")
             continue
@@ -622,6 +671,114 @@ def run_variant(ctx, d14, d15, cfg, rng, replay_only=None):
     ctx.count(f"variant:learn_z:{cfg['learn_z']}")
     ctx.count("variant:env:" + (",".join(k_ for k_ in ("jitter_mode", "build_dtype", "jitter_ctx_build", "jitter_ctx_use")
                                         if cfg.get(k_) is not None) or "default"))
+
+
+# ------------------------------------------------------------------ part E: eval mode, re-parameterisation ops, call patterns
+#
+# Round-4 seeded misses C15-10/11/12.  (a) the objective evaluated in EVAL mode too (memo tables persist there), twice on
+# one object with a re-parameterisation in between that is a documented invalidation point: `load_state_dict` on the model /
+# on the strategy child, setters or raw `copy_` followed by a `train()/eval()` toggle, a bare toggle; (b) in TRAINING mode
+# every re-parameterisation op directly (also `load_state_dict` into the kernel child, raw `copy_` on raw parameters);
+# (c) three-step call patterns between `output = model(x)` and `mll(output, y)`: another forward, `model(x*, prior=True)`,
+# an eval-mode prediction and back, `kl_divergence()` called directly, a second objective object evaluated — the objective
+# of the FIRST output must still be its definition.  (Direct edits in eval mode WITHOUT an invalidation point are the
+# documented exclusion of DESIGN §3 and are not generated.)
+
+EVAL_OPS = ["load-model", "load-strategy-child", "setter+toggle", "raw-copy+toggle", "toggle"]
+TRAIN_OPS = ["load-strategy-child", "load-kernel-child", "raw-copy", "load-model"]
+PATTERNS3 = ["forward-other-x", "prior-call", "eval-predict-and-back", "kl-direct", "second-mll"]
+
+
+def pattern_configs(ctx):
+    rng = ctx.rng("pattern-configs")
+    dists = ["CholeskyVariationalDistribution", "MeanFieldVariationalDistribution", "NaturalVariationalDistribution",
+             "DeltaVariationalDistribution", "TrilNaturalVariationalDistribution"]
+    out = []
+    reps = 1 if ctx.quick else 4
+    k = 0
+    for _ in range(reps):
+        cells = [("eval", op) for op in EVAL_OPS] + [("train", op) for op in TRAIN_OPS]
+        cells += [("train3", pt) for pt in PATTERNS3] + [("eval3", pt) for pt in ("forward-other-x", "prior-call", "kl-direct")]
+        for strat in ("VariationalStrategy", "UnwhitenedVariationalStrategy"):
+            for mode, op in cells:
+                n = rng.randint(2, 5)
+                out.append({"strategy": strat, "objective": ["elbo", "pll"][k % 2], "mode": mode, "op": op,
+                            "dist": dists[k % 5], "beta": rng.choice([1.0, 0.3]), "priors": False, "added": k % 2,
+                            "M": rng.randint(2, 5), "n": n, "d": rng.choice([1, 2]), "N": rng.choice([n, 3 * n, 17]),
+                            "pb": [[], [], [2]][k % 3], "kernel": rng.choice(["rbf", "matern"]), "combine": True,
+                            "learn_z": LEARN_Z[k % 3]})
+                k += 1
+    return out
+
+
+def run_pattern(ctx, d14, d15, cfg, rng, replay_only=None):
+    import torch
+    import gpytorch
+    model, lik, dist, x, y, added_vals = build(cfg, rng)
+    N, beta, n, d = cfg["N"], cfg["beta"], cfg["n"], cfg["d"]
+    cls = gpytorch.mlls.VariationalELBO if cfg["objective"] == "elbo" else gpytorch.mlls.PredictiveLogLikelihood
+    mll = cls(lik, model, num_data=N, beta=beta)
+    vs = model.variational_strategy
+    unwh = cfg["strategy"] != "VariationalStrategy"
+    mode, op = cfg["mode"], cfg["op"]
+    evalm = mode.startswith("eval")
+    model.train(not evalm)
+    lik.train(not evalm)
+    xs = V.spread_points([n + 1, d], rng, lo=-2.5, hi=2.5, min_dist=0.25)
+
+    def judge(j, out, what, recomputed):
+        replay = {"cfg": cfg, "runner": "pattern", "evaluation": j}
+        if replay_only is not None and replay_only.get("evaluation") not in (None, j):
+            return
+        judge_objective(ctx, d14, d15, cfg, cls.__name__, model, lik, dist, x, y, out, None, added_vals, mll, replay,
+                        replay_only=None if replay_only is None else replay_only.get("idx"),
+                        extra_desc=f"{env_tag(cfg)} mode={mode} {what} evaluation#{j}",
+                        key_tag=f"/{mode}:{op if j else 'first'}", prior_recomputed=unwh and recomputed)
+        ctx.count(f"pattern:{mode}:{op}")
+
+    with torch.no_grad():
+        if mode in ("eval", "train"):
+            # (a)/(b): evaluate, re-parameterise through an invalidation point, evaluate again on the same objects
+            judge(0, mll(model(x), y), "before " + op, evalm)
+            other, olik, _, _, _, _ = build(cfg, C.Rng(f"{C.seed()}:{cfg.get('rng_label')}:other"))
+            sd = other.state_dict()
+            toggled = False
+            if op == "load-model":
+                model.load_state_dict(sd)
+            elif op == "load-strategy-child":
+                pre = "variational_strategy."
+                vs.load_state_dict({k_[len(pre):]: v for k_, v in sd.items() if k_.startswith(pre)})
+            elif op == "load-kernel-child":
+                pre = "covar_module."
+                model.covar_module.load_state_dict({k_[len(pre):]: v for k_, v in sd.items() if k_.startswith(pre)})
+            elif op.startswith("setter"):
+                change_hypers(model, lik, rng)
+            elif op.startswith("raw-copy"):
+                for (nm, p_), (_, q_) in zip(model.named_parameters(), other.named_parameters()):
+                    p_.copy_(q_)          # raw tensors overwritten in place: hyper-parameters, Z, variational parameters
+            if op.endswith("toggle"):
+                model.train(evalm)
+                model.train(not evalm)
+                toggled = True
+            judge(1, mll(model(x), y), "after " + op, evalm)
+        else:
+            # (c): something else happens between `output = model(x)` and `mll(output, y)`
+            output = model(x)
+            recomputed = evalm
+            if op == "forward-other-x":
+                model(xs).mean.sum().item()
+            elif op == "prior-call":
+                model(xs, prior=True).mean.sum().item()
+            elif op == "eval-predict-and-back":
+                model.eval()
+                model(xs).variance.sum().item()
+                model.train()
+                recomputed = True          # the toggle is a documented invalidation point: p(u) is rebuilt by the property
+            elif op == "kl-direct":
+                vs.kl_divergence().sum().item()
+            elif op == "second-mll":
+                cls(lik, model, num_data=N + 3, beta=beta)(model(xs), torch.zeros(n + 1, dtype=torch.float64)).sum().item()
+            judge(0, mll(output, y), f"output=model(x); {op}; mll(output, y)", recomputed)
 
 
 # ------------------------------------------------------------------ part B: bound chain, q*, NGD
@@ -1244,6 +1401,9 @@ def run_all(ctx, d14, d15):
     for i, cfg in enumerate(variant_configs(ctx)):
         cfg["rng_label"] = f"variant:{i}"
         go("variant", cfg, lambda d, c=cfg: run_variant(ctx, d14, d, c, ctx.rng(c["rng_label"])))
+    for i, cfg in enumerate(pattern_configs(ctx)):
+        cfg["rng_label"] = f"pattern:{i}"
+        go("pattern", cfg, lambda d, c=cfg: run_pattern(ctx, d14, d, c, ctx.rng(c["rng_label"])))
     for i, cfg in enumerate(bound_configs(ctx)):
         cfg["rng_label"] = f"bound:{i}"
         go("bound", cfg, lambda d, c=cfg: (run_bound(ctx, d14, d, c, ctx.rng(c["rng_label"])) if d is not None
@@ -1305,6 +1465,8 @@ def replay(ctx, payload):
         rng = ctx.rng(cfg.get("rng_label", ""))
         if case.get("runner") == "objective":
             run_objective(ctx, d14, d15, cfg, rng, replay_only=case.get("idx"))
+        elif case.get("runner") == "pattern":
+            run_pattern(ctx, d14, d15, cfg, rng, replay_only={"evaluation": case.get("evaluation"), "idx": case.get("idx")})
         elif case.get("runner") == "variant":
             run_variant(ctx, d14, d15, cfg, rng, replay_only={"evaluation": case.get("evaluation"), "idx": case.get("idx")})
         elif case.get("runner") == "bound_py" or (d15 is None and case.get("runner") == "bound"):
